@@ -1,12 +1,34 @@
 // Native replay for C20: evaluates M*inverse(M) on the real Matrix4d/Matrix3d at the rational point of the solver's model.
 #include <asl/Matrix4.h>
 #include <asl/Matrix3.h>
+#include <asl/Matrix.h>
+#include <string.h>
 #include <stdio.h>
 #include <stdlib.h>
 #include <math.h>
 using namespace asl;
 int main(int argc, char** argv)
 {
+	if (argc >= 5 && !strcmp(argv[1], "solve"))   // solve <rows> <cols> <rhs>: solve(A, b) on the real Matrixd of that shape; A and b must come back as they were and A x = b must hold for the A that was passed
+	{
+		int ra = atoi(argv[2]), ca = atoi(argv[3]), cb = atoi(argv[4]);
+		Matrixd A(ra, ca), b(ra, cb);
+		unsigned s = 12345;
+		for (int i = 0; i < ra; i++) for (int j = 0; j < ca; j++) { s = s * 1103515245u + 12345u; A(i, j) = double((s >> 16) % 19) - 9 + (i == ca - 1 - j ? 25 : 0); }   // dominant anti-diagonal: row exchanges are needed
+		for (int i = 0; i < ra; i++) for (int j = 0; j < cb; j++) { s = s * 1103515245u + 12345u; b(i, j) = double((s >> 16) % 19) - 9; }
+		Array<double> a0, b0;
+		for (int i = 0; i < ra; i++) for (int j = 0; j < ca; j++) a0 << A(i, j);
+		for (int i = 0; i < ra; i++) for (int j = 0; j < cb; j++) b0 << b(i, j);
+		Matrixd A1 = A;                              // a second handle on the same storage, as a caller may well have
+		Matrixd x = solve(A, b);
+		int bad = 0;
+		for (int i = 0; i < ra; i++) for (int j = 0; j < ca; j++) if (A(i, j) != a0[i * ca + j] || A1(i, j) != a0[i * ca + j]) bad |= 1;
+		for (int i = 0; i < ra; i++) for (int j = 0; j < cb; j++) if (b(i, j) != b0[i * cb + j]) bad |= 2;
+		if (x.rows() != ca || x.cols() != cb) bad |= 4;
+		if (!bad && ra == ca) { Matrixd r = A * x - b; double w = 0; for (int i = 0; i < ra; i++) for (int j = 0; j < cb; j++) w = fmax(w, fabs(r(i, j))); if (w > 1e-9) bad |= 8; }
+		if (bad) { printf("REPRODUCED solve(A, b) on a %dx%d system with %d right-hand side(s):%s%s%s%s\n", ra, ca, cb, bad & 1 ? " the caller's A was overwritten" : "", bad & 2 ? " the caller's b was overwritten" : "", bad & 4 ? " x has the wrong shape" : "", bad & 8 ? " A x != b" : ""); return 1; }
+		printf("OK solve %dx%d rhs %d\n", ra, ca, cb); return 0;
+	}
 	int n = atoi(argv[1]);                 // 4 or 3, then n*n entries
 	double v[16]; for (int i = 0; i < n * n; i++) v[i] = atof(argv[2 + i]);
 	double worst = 0, d = 0;
